@@ -277,6 +277,43 @@ def weave_fn(item_text, fnpath, sections, origin_file, origin_line):
                 raise LostAnchor("%s: anchor pattern %r #%d not found" % (fnpath, pat, k))
             off = found + len(pat) if s.kind == "after" else found
             ins.append(Insertion(off, "\n" + s.body + "\n", (s.file, s.line)))
+        elif s.kind == "closureexpr":
+            # the pattern ends right after the `|params|` of a closure that is the LAST argument of a call and whose
+            # body is a brace-less expression; the body runs up to the `)` closing that call.  The section body is
+            # woven after the parameters and the body expression is wrapped in braces.
+            pat = s.args.get("pattern")
+            k = int(s.args["_pos"][0]) if s.args["_pos"] else 0
+            lo, hi = toks[body_open].start, toks[body_close].end
+            pos = lo
+            found = -1
+            for _ in range(k + 1):
+                found = item_text.find(pat, pos, hi)
+                if found < 0:
+                    break
+                pos = found + 1
+            if found < 0:
+                if s.args.get("opt"):
+                    continue
+                raise LostAnchor("%s: closure %r #%d not found" % (fnpath, pat, k))
+            start = found + len(pat)
+            # first code token of the body
+            bt = None
+            for ti, t in enumerate(toks):
+                if t.start >= start and t.kind not in ("ws", "comment", "doc"):
+                    bt = ti
+                    break
+            if bt is None:
+                raise LostAnchor("%s: closure body not found" % fnpath)
+            end_tok = None
+            for ti in range(bt, len(toks)):
+                t = toks[ti]
+                if t.kind == "punct" and t.text == ")" and t.depth < toks[bt].depth:
+                    end_tok = ti
+                    break
+            if end_tok is None:
+                raise LostAnchor("%s: end of closure body not found" % fnpath)
+            ins.append(Insertion(start, " " + " ".join(s.body.split()) + " { ", (s.file, s.line)))
+            ins.append(Insertion(toks[end_tok].start, " }", (s.file, s.line)))
         elif s.kind == "closurehead":
             # the pattern is the text up to and including the `{` that opens a closure body, e.g. `foo(|ps| {`;
             # the section body (return binder, requires/ensures) is woven before that brace
